@@ -39,7 +39,7 @@ func renewWindow(w *World) (msg saotypes.MsgRenew, o ordertypes.Order, s orderty
 
 // C14/C07 Σ-P3 under Renew: after a successful renewal the provider's total shard collateral still equals
 // the collateral recorded on its (only) shard.
-func Ob_C07C14_Renew_ShardPledgeSum() {
+func Ob_C02C07C14_Renew_ShardPledgeSum() {
 	w := NewWorld()
 	msg, _, s, _ := renewWindow(w)
 	var err error
